@@ -151,11 +151,12 @@ PROPS = {
         "required_probes": ["start", "stop", "wait", "suspend", "resume", "misuse_refused", "racing_submitter", "stop_entered_before_finalize"],
     },
     "C06": {
-        "quick_runs": 24000, "thorough_runs": 400000, "seed": 6000001,
+        "quick_runs": 32000, "thorough_runs": 400000, "seed": 6000001,
         "rule": "C06 programs: 2-8 parties x lock/try_lock/try_lock_for/try_lock_until sections (yields, sleeps and migrations "
                 "inside), nested recursive locking, re-lock and foreign-unlock misuse, over pika::mutex, timed_mutex, "
-                "recursive_mutex (tasks) and both spinlocks (tasks and OS threads).",
-        "required_probes": ["timed_lock.true", "timed_lock.false", "misuse.relock", "misuse.foreign_unlock", "recursive.nested", "try_lock.false"],
+                "recursive_mutex (tasks) and both spinlocks (tasks and OS threads); on timed_mutex half of the plain sections aim their unlock "
+                "at the deadline of a pending timed lock attempt (-300 .. +1800 ns).",
+        "required_probes": ["timed_lock.true", "timed_lock.false", "misuse.relock", "misuse.foreign_unlock", "recursive.nested", "try_lock.false", "unlock_aimed_at_timed_deadline"],
     },
     "C07": {
         "quick_runs": 24000, "thorough_runs": 400000, "seed": 7000001,
